@@ -33,7 +33,11 @@ ASSUMPTIONS = [
 BUDGET = {"quick": (20000, 200), "thorough": (120000, 2400)}
 
 CODECS = ["utf-8", "latin-1", "cp1252", "iso-8859-15", "cp437", "shift_jis", "euc-jp", "koi8-r", "cp1251", "gbk", "big5", "euc-kr", "iso-8859-2", "cp850", "mac-roman", "ascii"]
-COOKIE_STYLES = ["# -*- coding: %s -*-", "# coding=%s", "# vim: set fileencoding=%s :", "#!/usr/bin/python\n# -*- coding: %s -*-", "  # coding: %s"]
+COOKIE_STYLES = [
+    "# -*- coding: %s -*-", "# coding=%s", "# vim: set fileencoding=%s :", "#!/usr/bin/python\n# -*- coding: %s -*-", "  # coding: %s",
+    # other spellings PEP 263 accepts: the word before "coding", a form feed before the comment or as the whole first line
+    "# -*- encoding: %s -*-", "# This Python file uses the following encoding: %s", "#!/usr/bin/python\n\x0c# -*- coding: %s -*-", "\x0c\n# coding: %s",
+]
 CANDIDATES = (
     [chr(c) for c in range(32, 127)]
     + list("\téüñßæø€ΩλÅçÐþ¿¡«»±µ¶")
@@ -153,6 +157,13 @@ def _evaluate(case, env, out):
         out.labels["nl:" + repr(case["nl"])] += 1
         out.labels["declared:" + case["declared"]] += 1
 
+        ff_first = bool(case.get("cookie")) and case["cookie"].startswith("\x0c\n")
+        if ff_first and case["nl"] == "\r":
+            # input feature of a recorded finding: CR-only file whose first line is not a comment, cookie on line 2
+            out.labels["cr_only_cookie_after_non_comment_line"] += 1
+            if env.known("cr_only_file_cookie_on_line_two_after_non_comment_line"):
+                out.excluded["cr_only_file_cookie_on_line_two_after_non_comment_line"] += 1
+                return out
         # (1) identity write
         text = res.read()
         project.do(ch.ChangeContents(res, text))
@@ -252,6 +263,8 @@ def _evaluate(case, env, out):
         if len(lines) >= 2 and not (case["declared"] == "bom"):
             first = res.read()
             for other_nl in [n for n in ("\n", "\r\n", "\r") if n != case["nl"]]:
+                if other_nl == "\r" and ff_first and env.known("cr_only_file_cookie_on_line_two_after_non_comment_line"):
+                    continue
                 ocase = dict(case)
                 ocase["nl"] = other_nl
                 converted = build_bytes(lines, ocase)
